@@ -796,10 +796,21 @@ def evaluate(recs, name="c14c", rounds=8):
         exprs.append(f"(let C := {c_certs(C)} in let f := {r['before'].c_func()} in let g := {r['after'].c_func()} in "
                      f"let E := infer_entry C f {max(rounds, len(r['before'].blocks) + 1)} in "
                      f"[if check_func C E f g then 1 else 0; if certs_ok f C then 1 else 0; if check_blocks C E E f g then 1 else 0])")
-    import math
-    shard = max(1, math.ceil(len(exprs) / 3))
-    outs = coqrun.eval_zlists(COQ_IMPORTS, exprs, name, shard=shard, timeout=300)
-    return [tuple(o) for o in outs]
+    # three coqc processes side by side (largest expressions first, dealt round-robin)
+    from concurrent.futures import ThreadPoolExecutor
+    order = sorted(range(len(exprs)), key=lambda i: -len(exprs[i]))
+    groups = [order[k::3] for k in range(3)]
+    groups = [g for g in groups if g]
+    res = [None] * len(exprs)
+
+    def work(k):
+        g = groups[k]
+        return g, coqrun.eval_zlists(COQ_IMPORTS, [exprs[i] for i in g], f"{name}_{k}", shard=max(1, len(g)), timeout=300)
+    with ThreadPoolExecutor(max_workers=3) as ex:
+        for g, outs in ex.map(work, range(len(groups))):
+            for i, o in zip(g, outs):
+                res[i] = tuple(o)
+    return res
 
 
 def changes(rec):
@@ -900,8 +911,14 @@ def part_copy_passes(ctx):
             mid, removed = split_readonly(r)
             r["pair"] = {"before": r["before"], "after": mid}
             r["dead"] = dead_copy_check(mid, r["after"], removed)
-            bad = {k: v for k, v in r.get("recheck", {}).items() if v}
-            r["recheck_bad"] = bad
+            # the read-only facts this invocation relies on: (callee, parameter) of every redirected operand
+            used = set()
+            for bi, j, x, y in (changes(r) or []):
+                if x[0] == "invoke" and (bi, j) in r.get("roles", {}):
+                    callee, _, ks = r["roles"][(bi, j)]
+                    used |= {(callee, ks[pos]) for pos, (o, o2) in enumerate(zip(x[1], y[1])) if o != o2}
+            r["recheck_bad"] = {k: v for k, v in r.get("recheck", {}).items() if v and k in used}
+            r["recheck_used"] = len(used)
             if changes(r) is None:
                 why = "block structure changed"
         elif r["pass"] == IR:
@@ -927,7 +944,7 @@ def part_copy_passes(ctx):
             ctx.violation("correspondence-broken", "check_func could not be evaluated on the exported invocations", {"error": str(e)[-1500:]})
     stats["validated_by"] = {"MemoryCopyElisionPass": "check_func (copyfwd_check_sound)", RO: "check_func rule R4 (copyfwd_check_sound under ro_uniform) + "
                              "dead_copy_check + readonly_recheck (syntactic, unverified)", IR: "internal_return_check (syntactic, unverified)"}
-    stats["readonly_facts_rechecked"] = sum(len(r.get("recheck", {})) for r in recs)
+    stats["readonly_facts_rechecked"] = sum(r.get("recheck_used", 0) for r in recs)
     t2 = time.time()
     entries = {c["name"]: c for c in progs}
     searched, reported = {}, 0
